@@ -8,24 +8,24 @@ NOTE_SCHED = ("trusted: Coq kernel + vm_compute; the hand-written scheduler mode
               "futures semantics (a node body runs inside [dispatch, observed-done]); pure terminating node functions. Axioms: none (Closed under the global context).")
 CLAIMED = {
  "C02": ("proof", "Theorems C02_* (coq/Properties/C02.v) over the scheduler LTS: for every wf configuration and every accepted label sequence (all completion orders, tie-breaks, failing nodes) every participating dependency is observed finished (or deactivated) before a node starts. Model tied to /repo on every run by trace acceptance (K-sched) of controlled runs of the real scheduler + independent monitor on ENTER/EXIT events and argument values. Real entry/exit containment in [dispatch, done] is monitored, not proved.", "6 C02"),
- "C03": ("proof", "Theorems C03_* : NoDup of starts in every run, exactly-once for every selected node in every successful run, nothing unselected/pre-computed starts. K-sched + entry-counter monitor.", "6 C03"),
- "C04": ("proof", "Theorem C04_inflight_bounded: in every reachable state |thread in flight| + |async in flight| <= max_concurrency and kinds match resources; inline execution only for main-thread nodes. K-sched + monitors on real thread identity and live counts. Thread identity itself is runtime (monitored only).", "6 C04"),
- "C05": ("proof", "Theorems C05_*: a sequential node in flight is the only node in flight and only drain waits are enabled; it is dispatched only with nothing in flight. K-sched + interval-overlap monitor on real ENTER/EXIT.", "6 C05"),
- "C06": ("proof", "Theorems C06_*: the scheduler's candidate set equals the spec's ready set and every start/skip is a maximum of the compound-priority table attached to the executed graph. K-sched + shadow-ready-set monitor. 'finished' = observed by the scheduler (D-c).", "6 C06"),
- "C08": ("proof", "Partial: C08_block_only_when_justified_partial proved for all runs with the F9 exception made explicit, unconditional for single-kind DAGs; C08_..._refuted is the machine-checked witness of the exception, replayed on the implementation as KNOWN-FINDING F9. K-sched + monitor at every wait.", "6 C08"),
+ "C03": ("proof", "Theorems C03_* : NoDup of starts in every run, exactly-once for every selected node in every successful run, nothing unselected/pre-computed starts. K-sched + entry-counter monitor. K-hist (position in a history) and K-graph (selection through every alias form) also run under C03.", "6 C03"),
+ "C04": ("proof", "Theorem C04_inflight_bounded: in every reachable state |thread in flight| + |async in flight| <= max_concurrency and kinds match resources; inline execution only for main-thread nodes. K-sched + monitors on real thread identity and live counts. Thread identity itself is runtime (monitored only). Reconfiguration ('every configuration'): theorems C04_reconfiguration_* over Reconf.v (no history of config steps changes a resource; the limit in force is the last accepted one) tied by K-conf (config_from_dict/yaml/json step by step vs Reconf.kconf) and by reconfiguration histories in K-sched judged against the declared attributes.", "6 C04"),
+ "C05": ("proof", "Theorems C05_*: a sequential node in flight is the only node in flight and only drain waits are enabled; it is dispatched only with nothing in flight. K-sched + interval-overlap monitor on real ENTER/EXIT. Reconfiguration: C05_priority_only_reconfiguration_keeps_sequential / C05_reconfiguration_entry_applied over Reconf.v, tied by K-conf and K-sched reconfiguration histories.", "6 C05"),
+ "C06": ("proof", "Theorems C06_*: the scheduler's candidate set equals the spec's ready set and every start/skip is a maximum of the compound-priority table attached to the executed graph. K-sched + shadow-ready-set monitor. 'finished' = observed by the scheduler (D-c). Compound-priority tables of composed DAGs are checked against Priority.v (K-compose).", "6 C06"),
+ "C08": ("proof", "Partial: C08_block_only_when_justified_partial proved for all runs with the F9 exception made explicit, unconditional for single-kind DAGs; C08_..._refuted is the machine-checked witness of the exception, replayed on the implementation as KNOWN-FINDING F9. K-sched + monitor at every wait. Reconfiguration: C08_reconfiguration_without_limit_keeps_it (Reconf.v), K-conf, and the declared max_concurrency in K-sched.", "6 C08"),
  "C09": ("proof", "Theorems C09_*: strictly decreasing measure, run length <= 32|nodes|+6, progress, never two empty waits in a row, finished => everything ran. K-sched + watchdog. OS-level liveness of threads / event loop outside the model.", "6 C09"),
  "C01": ("proof", "Theorems C01_* (for every value type, node table, configuration, schedule): every scheduler run computes the denotation of the node table; all schedules agree; the denotation equals sequential plain evaluation in any dependency order; scheduling parameters do not occur in the denotation. The build half (node table = what the describing function denotes) is tied by K-value: DAG value vs plain-Python evaluation of the same generated describing function vs denotation of the table the implementation built, under random configurations (dict/JSON/YAML), both flavours, controlled schedules.", "6 C01"),
- "C07": ("proof", "Theorems C07_*: cprio = own + sum over any duplicate-free enumeration of the reachable set; independence from container iteration order (hash seed); unique run with max_concurrency=1 and injective priorities; machine-checked refutation of the pinned commit's algorithm (F1, fixed). K-graph: implementation table vs model on random non-tree DAGs, executor sub-graph tables, sub-processes under several PYTHONHASHSEEDs (tables and execution order).", "6 C07"),
+ "C07": ("proof", "Theorems C07_*: cprio = own + sum over any duplicate-free enumeration of the reachable set; independence from container iteration order (hash seed); unique run with max_concurrency=1 and injective priorities; machine-checked refutation of the pinned commit's algorithm (F1, fixed). K-graph: implementation table vs model on random non-tree DAGs, executor sub-graph tables, sub-processes under several PYTHONHASHSEEDs (tables and execution order). Reconfiguration frame theorems over Reconf.v (K-conf); compound-priority tables of DAGs derived by compose() (K-compose).", "6 C07"),
  "C10": ("proof", "Theorems C10_*: the flag test's outcome is the truthiness of the denotation of the referenced value with its key path; falsy => result None, never started; truthy => started exactly once; dependents run. Nested-DAG propagation is tied by K-value (flag forms x values, nested depth 3) against the plain reference; exception F13 is a known finding.", "6 C10"),
  "C11": ("proof", "Theorems C11_* over History.v (set-level model of what an instance keeps between operations): for every sequence of call / setup(selection) / executor operations a setup node executed by a successful operation is never executed again; setup(target) executes only setup ancestors of the targets; copies are independent. K-hist: random histories on real instances incl. deepcopy, entry counters per (instance, setup node), executed sets per operation vs the model.", "6 C11"),
  "C12": ("proof", "Theorems C12_*: exact characterisation of the selected node set by reachability in the full graph (under the property's hypothesis on excluded nodes), ValueError iff conditions, subset/NoDup. K-graph: executor graphs for random (R, X, T) through id / tag / reference aliases incl. error paths, executed node sets.", "6 C12"),
  "C13": ("proof", "Theorems C13_*: flag off => no debug node in executor / call / setup graphs; flag on => call runs all, pulled debug nodes have all inputs in the executed graph; values of non-debug nodes identical in both settings (SelectSpec.debug_does_not_change_values). K-graph under both settings.", "6 C13"),
- "C15": ("proof", "Theorem C15_den_precompute: replacing nodes by their already-computed values (the only state an instance keeps: setup results) changes no value and no failure, for every table / configuration; with C11 (what is kept) this is 'the k-th call equals the call on a fresh instance'. K-hist: histories with different argument tuples, omitted defaults, executors, failing calls and failing executor runs followed by a re-run, then one more call compared with a freshly built DAG.", "6 C15"),
+ "C15": ("proof", "Theorem C15_den_precompute: replacing nodes by their already-computed values (the only state an instance keeps: setup results) changes no value and no failure, for every table / configuration; with C11 (what is kept) this is 'the k-th call equals the call on a fresh instance'. K-hist: histories with different argument tuples, omitted defaults, executors, failing calls and failing executor runs followed by a re-run, then one more call compared with a freshly built DAG. Argument binding: C15_call_after_setup_same_as_fresh / C15_binding_frame over Args.v (the map handed to the scheduler reads only the DAG-level map, the parameters and the arguments), tied by K-bind on every generated call.", "6 C15"),
  "C16": ("proof", "PARTIAL. Theorems C16_* over an interleaving model of the build lock and the 'am I describing?' decision: for every set of thread programs and every interleaving each thread observes exactly what it observes alone (builds, calls of finished DAGs, calls of decorated functions outside a DAG); DAGs built concurrently are identical to sequential builds; at most one builder; the pinned commit's predicate is refuted by a machine-checked witness (F8, fixed). Tied by K-thread: real threads stepped by barriers through random interleavings vs the model, and concurrent calls of one DAG with distinct arguments. Atomic actions are Python-level calls; CPython-internal data races are outside.", "6 C16"),
  "C17": ("proof", "PARTIAL. Theorems C17_*: any two complete runs of the scheduler (both flavours run the same coroutine; no flavour parameter in the model) store the same values and start / skip the same nodes; with only async-thread nodes no scheduler step blocks the loop thread, in general only main-thread nodes and waits on thread-resource nodes do. Tied by K-async (both flavours of every generated function: value, executed nodes; gathered concurrent awaits) and a liveness monitor (a node completing only after a sibling coroutine ran). The event loop is not modelled.", "6 C17"),
  "C18": ("proof", "Theorems C18_*: a restart never executes a node whose result is in the file; same selection => nothing runs; cache_deps_of=D => file = results minus D, restart executes exactly D. Value equality via C15_den_precompute. K-hist: caching runs / restarts incl. cache_deps_of, executed sets and unpickled key sets. pickle fidelity trusted.", "6 C18"),
  "C19": ("proof", "Theorems C19_*: (embedding theorem) every node of the composed DAG denotes what it denotes in the original pipeline with the input nodes overridden; the composed node set is exactly inputs + outputs + what the outputs need, never behind an input; ValueError iff input-ancestor-of-input or an undeclared required DAG parameter is needed. compose() itself is tied on every run: node set / errors vs Compose.v, embed_check evaluated in coqc on the composed and original tables, the composed DAG's value vs a plain-Python evaluation with the input statements overridden, and the original DAG's value and table before / after composing.", "6 C19"),
- "C20": ("proof", "Theorems C20_* (embedding theorem): if the inner DAG with its parameters bound is embedded in the outer DAG's table through the id prefix, every inner node denotes in the outer DAG what it denotes in the inner one (same value, same failures), for every value type and any depth; with C01 this is inlining. The embedding relation itself is evaluated in coqc (IsoCheck.embed_check) on the real inner and outer tables of every generated nesting (depth <= 3, all signatures / call forms / return shapes), plus K-value against the plain-Python reference. F10 / F12 are known findings (loud build-time refusals).", "6 C20"),
+ "C20": ("proof", "Theorems C20_* (embedding theorem): if the inner DAG with its parameters bound is embedded in the outer DAG's table through the id prefix, every inner node denotes in the outer DAG what it denotes in the inner one (same value, same failures), for every value type and any depth; with C01 this is inlining. The embedding relation itself is evaluated in coqc (IsoCheck.embed_check) on the real inner and outer tables of every generated nesting (depth <= 3, all signatures / call forms / return shapes), plus K-value against the plain-Python reference. F10 / F12 are known findings (loud build-time refusals). Argument binding (explicit argument wins, omitted keeps the default): C20_explicit_argument_wins / C20_omitted_argument_keeps_default over Args.v, tied by K-bind.", "6 C20"),
  "C14": ("proof", "Theorems C14_*: the run ends with the first inspected failure, nothing accepted afterwards, no transitive dependent of a failed/unfinished node ever started, removals always target graph roots (no internal error). Exception wrapping (node id, location, cause) checked by the monitor on every failing run.", "6 C14"),
 }
 NOTES = {
